@@ -974,6 +974,29 @@ contract(
     sentence={"sumto": "the dense w-tilde curvature matrix is M^T W M"},
 )
 
+contract(
+    VU + "curvature_matrix_via_mapping_matrix_from", props=["C04"], mode="bounded",
+    types={"mapping_matrix": "real[2]", "noise_map": "real[1]"}, returns="real[2]",
+    let={"N": "mapping_matrix.shape[0]", "P": "mapping_matrix.shape[1]"},
+    requires=["noise_map.shape[0] == N", "forall(0, N, lambda d: noise_map[d] > 0)"],
+    ensures=["result.shape[0] == P", "result.shape[1] == P",
+             # mapping formalism: F = B^T N^-1 B (called without the diagonal term)
+             "forall(0, P, lambda i: forall(0, P, lambda j: result[i, j] == sumto(N, lambda d:"
+             " mapping_matrix[d, i] * mapping_matrix[d, j] / noise_map[d] ** 2)))"],
+    note="bounded only: array broadcasting `mapping_matrix / noise_map[:, None]` and np.dot are outside the engine-A subset; generated "
+         "with the default flags (add_to_curvature_diag=False), the diagonal term is covered by curvature_matrix_with_added_to_diag_from",
+    sentence={"sumto": "the curvature matrix of the mapping formalism is B^T N^-1 B"},
+)
+
+
+def _g_fmap(rng, tier):
+    for _ in range(gens.budget(tier, 200, 2000)):
+        n, p = rng.randint(0, 5), rng.randint(0, 3)
+        yield {"mapping_matrix": gens.reals(rng, (n, p), -3, 3, special=False), "noise_map": gens.reals(rng, (n,), 0.3, 2.5, special=False)}
+
+
+CONTRACTS[VU + "curvature_matrix_via_mapping_matrix_from"].gen = _g_fmap
+
 
 def _g_fdense(rng, tier):
     for _ in range(gens.budget(tier, 200, 2000)):
